@@ -38,11 +38,11 @@ func init() {
 				Flavours: []string{"race", "plain"},
 				Blocks:   16,
 				Procs:    8,
-				Rule: "case = one concurrent run on one cache (LRU store behind a serialisation-checking proxy; 3-5 keys so that at most 5 heap entries exist and finding F1 cannot occur; limit 2-4 with unit sizes or limit 4-8 with sizes 0-3). " +
+				Rule: "case = one concurrent run on one cache (LRU store behind a serialisation-checking proxy, or - a quarter of the recorded histories - the plain cache a user builds: no proxy, no eviction callback; 3-5 keys so that at most 5 heap entries exist and finding F1 cannot occur; limit 2-4 with unit sizes or limit 4-8 with sizes 0-3). " +
 					"(a) linearizability cases: 2-4 goroutines x 4-8 ops of Has/Get/Put/Remove/Len/Size/Clear, call/return stamped from one atomic counter at the client boundary, unique value id per Put, checked with porcupine against the reference LRU (no partitioning: eviction/Len/Size/Clear couple the keys), then a final Clear and the exactly-once accounting of the eviction log; " +
 					"(b) stress cases: 2-8 goroutines x 150-400 ops with goroutine-local results only (no harness synchronisation that could hide a race), an observer goroutine probing Size() and the accounting hook, run under the race detector and plain. (c) large-cache cases: a cache of 257..4097 unit entries is cleared while 2-4 observers call Len/Size (and optionally one Put races): every observation must be explained by Clear being one atomic step, and every entry must be reported evicted exactly once. (d) high-rate invariant cases without recording: a key that is only ever replaced must always be reported present; after a goroutine's own Clear its private key must be absent. GOMAXPROCS in {1,2,4,16} by block; random yields before calls and inside the proxy/size function/eviction callback. " +
 					"distinct = hash(per-client op lists, set of overlapping op pairs) = distinct interleavings observed; non-trivial = at least one pair of conflicting operations (same key, or one of them Len/Size/Clear/evicting Put) overlapped in real time",
-				Required:     []string{"lin_histories", "lin_overlapping_conflicting_pairs", "lin_histories_with_eviction_and_overlap", "stress_rounds", "stress_ops", "store_proxy_calls", "observer_probes", "evictions_logged", "porcupine_ok", "large_clear_cases", "large_clear_observations", "invariant_cases", "invariant_ops"},
+				Required:     []string{"lin_histories", "lin_overlapping_conflicting_pairs", "lin_histories_with_eviction_and_overlap", "stress_rounds", "stress_ops", "store_proxy_calls", "observer_probes", "evictions_logged", "porcupine_ok", "large_clear_cases", "large_clear_observations", "invariant_cases", "invariant_ops", "histories_on_plain_cache"},
 				Assumptions:  []string{"sequential specification = reference LRU of C08; key space <= 5 so that the heap never has more than 5 entries and known finding F1/F2 cannot influence results", "the race detector only sees accesses that actually overlapped without an intervening happens-before edge", "porcupine v1.3.0 is trusted as the linearizability decision procedure (60 s timeout => inconclusive)"},
 				CoverPkgs:    []string{"github.com/creachadair/mds/cache"},
 				CoverAnchors: []string{"cache/cache.go"},
@@ -114,10 +114,25 @@ type c09rig struct {
 }
 
 func newC09rig(limit int64, unit bool, salt uint64, jitter, record bool) *c09rig {
+	return newC09rigOpt(limit, unit, salt, jitter, record, false)
+}
+
+// newC09rigOpt with bare=true builds the cache the way a plain user does: the
+// LRU store itself (no proxy in front of it) and no eviction callback. Only
+// the client-side monitors (linearizability, Size <= limit, the accounting
+// hook at quiescence) apply then.
+func newC09rigOpt(limit int64, unit bool, salt uint64, jitter, record, bare bool) *c09rig {
 	rig := &c09rig{limit: limit, unit: unit, record: record}
 	jit := &c09jitter{salt: salt, on: jitter}
 	conf := cache.LRU[int, CVal]()
 	rig.proxy = &c09proxy{inner: cache.VerifStoreOf(conf), jit: jit}
+	if bare {
+		if !unit {
+			conf = conf.WithSize(func(v CVal) int64 { jit.maybe(); return v.Sz })
+		}
+		rig.ch = cache.New(limit, conf)
+		return rig
+	}
 	conf = conf.WithStore(rig.proxy).OnEvict(func(k int, v CVal) {
 		rig.nevict.Add(1)
 		if rig.record {
@@ -306,7 +321,11 @@ func c09linCase(c *fw.Ctx, r *rand.Rand) {
 		clients[i] = c09genClient(r, 4+r.IntN(5), keys, unit, limit, &nextID)
 	}
 	salt := r.Uint64()
-	rig := newC09rig(limit, unit, salt, true, true)
+	bare := salt%4 == 3 // a quarter of the histories: no store proxy, no eviction callback
+	rig := newC09rigOpt(limit, unit, salt, true, true, bare)
+	if bare {
+		c.Add("histories_on_plain_cache", 1)
+	}
 	var clock atomic.Int64
 	events := make([][]c09event, nclients)
 	preYield := make([][]byte, nclients)
@@ -359,7 +378,7 @@ func c09linCase(c *fw.Ctx, r *rand.Rand) {
 		rig.mu.Lock()
 		ev := fmt.Sprint(rig.evlog)
 		rig.mu.Unlock()
-		return map[string]any{"limit": limit, "unit_sizes": unit, "keys": keys, "gomaxprocs": runtime.GOMAXPROCS(0), "history_by_call_time": lines, "eviction_log": ev}
+		return map[string]any{"limit": limit, "unit_sizes": unit, "keys": keys, "plain_cache_without_proxy_and_callback": bare, "gomaxprocs": runtime.GOMAXPROCS(0), "history_by_call_time": lines, "eviction_log": ev}
 	}
 
 	// (3) store serialisation
@@ -383,6 +402,9 @@ func c09linCase(c *fw.Ctx, r *rand.Rand) {
 		}
 	}
 	check := func(final bool) bool {
+		if bare {
+			return true
+		}
 		rig.mu.Lock()
 		log := append([]lruEntry(nil), rig.evlog...)
 		rig.mu.Unlock()
